@@ -1137,7 +1137,7 @@ pub fn gen_dse() -> Vec<String> {
 
 /// GEO: counted loops that update a cell as `y = k*y + d` (a geometric closed form in the
 /// optimiser), with constant and input-dependent counts and start values, and a two-cell linear
-/// recurrence; triangular / cubic accumulations (x += d; y += x; z += y).  Deterministic, 159 programs.
+/// recurrence; triangular / cubic accumulations (x += d; y += x; z += y); counted loops with an odd step > 1 and a full-width zero test of the trip count.  Deterministic, 183 programs.
 pub fn gen_geo() -> Vec<String> {
     let mut out = Vec::new();
     let body = |k: usize, d: usize| format!("[->[->{}<]>[-<+>]<{}<]", "+".repeat(k), "+".repeat(d));
@@ -1170,6 +1170,19 @@ pub fn gen_geo() -> Vec<String> {
     for d in [1usize, 2] {
         out.push(format!(",[->{}{}<]>>.", "+".repeat(d), acc));
         out.push(format!(",>,<[->{}{}>{}<<]>.>.>.", "+".repeat(d), acc, acc));
+    }
+    // counted loops whose counter goes down by an odd step s > 1: the optimiser's trip count is
+    // counter * inverse(s) (2-adic division, `wrapping_inv`), and the quotient is then tested for
+    // zero at full width, so a wrong high bit of the inverse shows (seeded change C01f: an inverse
+    // that is exact only up to 48 bits).  Counter: a constant s*q; s*q behind a branch on the
+    // input (the trip count is not a compile-time constant); the raw input.  24 programs.
+    for st in [3usize, 5, 7, 11] {
+        for q in [1usize, 2] {
+            let tail = format!("[{}>+<]>{}[[-]<+++.>]<++.", "-".repeat(st), "-".repeat(q));
+            out.push(format!("{}{}", "+".repeat(st * q), tail));
+            out.push(format!(">>,[[-]<<{}>>]<<{}", "+".repeat(st * q), tail));
+            out.push(format!(",{}", tail));
+        }
     }
     // x, y = y, x + y  (n steps)
     for n in [3usize, 7, 12, 20] {
